@@ -144,6 +144,10 @@ type handle struct {
 type namespace struct {
 	dirs  []string // candidate directory paths
 	files []string // candidate file paths
+	// further directory paths used only as operands of directory renames: places below directories
+	// that exist only after an earlier move (d1/s/t after d0/s went to d1/s), so that "move a
+	// directory into its own subtree" is also tried through directories that have been moved
+	dirTargets []string
 }
 
 func mkNamespace(odd bool, prefix string) namespace {
@@ -158,6 +162,7 @@ func mkNamespace(odd bool, prefix string) namespace {
 	}
 	ns := namespace{}
 	ns.dirs = []string{dn[0], dn[1], dn[0] + "/s", dn[1] + "/s", dn[0] + "/s/t"}
+	ns.dirTargets = append(append([]string{}, ns.dirs...), dn[1]+"/s/t", dn[0]+"/s/x", dn[1]+"/s/x", dn[1]+"/s/t/x", dn[0]+"/s/t/x", dn[0]+"/t", dn[1]+"/t")
 	for _, d := range append([]string{""}, ns.dirs...) {
 		for _, f := range fn {
 			if d == "" {
@@ -249,8 +254,16 @@ func genOps(w *vsim.World, label string, ns namespace, mean, blk int, withSaves 
 				o.p1 = ns.files[w.Choose(label+"-path", len(ns.files))]
 				o.p2 = ns.files[w.Choose(label+"-path2", len(ns.files))]
 			} else if w.Choose(label+"-rdir", 4) == 3 {
-				o.p1 = ns.dirs[w.Choose(label+"-dpath", len(ns.dirs))]
-				o.p2 = ns.dirs[w.Choose(label+"-dpath2", len(ns.dirs))]
+				o.p1 = ns.dirTargets[w.Choose(label+"-dpath", len(ns.dirTargets))]
+				o.p2 = ns.dirTargets[w.Choose(label+"-dpath2", len(ns.dirTargets))]
+				if w.Choose(label+"-into-moved", 3) == 2 {
+					// a two-step history: move a directory below another top-level directory, then try to
+					// move that directory into the subtree that has just arrived (must fail: into itself)
+					x := w.Choose(label+"-moved-from", 2)
+					o.p1, o.p2 = ns.dirs[2+x], ns.dirs[1-x]+"/m" // d0/s -> d1/m, or d1/s -> d0/m
+					ops = append(ops, o)
+					o = fsop{idx: len(ops), kind: opRename, p1: ns.dirs[1-x], p2: ns.dirs[1-x] + "/m/x"}
+				}
 			} else {
 				o.p1 = ns.files[w.Choose(label+"-path", len(ns.files))]
 				o.p2 = anyPath[w.Choose(label+"-path2", len(anyPath))]
